@@ -116,6 +116,9 @@ func runHost(h *common.History) {
 		switch op[0] {
 		case "1":
 			ip, port := ipOf(uint32(common.AtoU64(op[1]))), common.AtoI(op[2])
+			if i%3 == 1 {
+				ip = ip.To16() // the 16-byte form of the same IPv4 address must behave identically
+			}
 			var c interface{}
 			var err error
 			switch (i + port) % 3 {
@@ -170,6 +173,9 @@ func runHost(h *common.History) {
 			h.Obs = append(h.Obs, nil)
 		case "3":
 			ip, port := ipOf(uint32(common.AtoU64(op[1]))), common.AtoI(op[2])
+			if i%3 == 1 {
+				ip = ip.To16() // the 16-byte form of the same IPv4 address must behave identically
+			}
 			c := vnet.VerifFindSock(n, ip, port)
 			if c == nil {
 				h.Obs = append(h.Obs, []string{"-1"})
